@@ -1,6 +1,7 @@
 (* Property C19 — ToSQL writes each row as one INSERT; ReadSQL rebuilds the result set.
    Model: Model/Sql.v; specification functions (also the oracle of engine "sql"): Corr/IOCorr.v
-   (spec_insert, spec_rows, spec_column, spec_read, spec_frame). *)
+   (spec_insert, spec_rows, spec_read, spec_frame) and Model/SqlSpec.v (spec_column, prep, g_of,
+   spec_read_gen, spec_read_must_fail: the reading side for every configuration). *)
 From Coq Require Import String.
 From QF Require Import Base.Prelude Model.Sql Model.IOFault Corr.IOCorr Proofs.SqlProofs Proofs.SqlProofs2.
 Local Open Scope N_scope.
@@ -143,7 +144,8 @@ Proof. vm_compute. reflexivity. Qed.
    float.Fixed and strconv.ParseFloat are not modelled (floating point arithmetic): in every theorem
    below [fixed : N -> Z -> N] (Fixed on bit patterns) and [pf : bytes -> option N] (ParseFloat, None =
    error) are universally quantified, i.e. the statements hold whatever these two functions compute.
-   Auxiliary definitions (Proofs/SqlProofs2.v):
+   Auxiliary definitions (Model/SqlSpec.v: coerce_fn, g_of, fix_val, prep, spec_read_gen, spec_read_must_fail -
+   these are what the oracle of engine "sql" executes; Proofs/SqlProofs2.v: dispatch):
      dispatch fixed c t      the type switch of Column.Scan (what Scan does when c.coerce == nil)
      coerce_fn pf k v        the two shipped coercions as functions on driver values (None = error)
      g_of pf conf name       the coercion configured for a column name (identity [Some] when there is none)
@@ -310,6 +312,39 @@ Example C19_coercion_error_example :
   /\ read_sql toy_fixed toy_pf example_conf rs2 no_faults = Fail.
 Proof. vm_compute. repeat split; auto. Qed.
 
+(* ---- C19_read_must_fail: the other half of the engine's oracle.  spec_read_must_fail (Model/SqlSpec.v):
+   every row has one value per column, and some column j either holds a non-NULL value on which the
+   coercion configured for its name reports an error, or - after coercion - a NULL follows the value
+   that made it an int / bool column.  Then ReadSQL returns Err, for every configuration. *)
+Theorem C19_read_must_fail fixed pf (conf : sql_config) (names : list bytes) (rows : list (list dval)) :
+  spec_read_must_fail fixed pf conf names rows = true ->
+  read_sql fixed pf conf (mkRS names rows) no_faults = Fail.
+Proof. exact (read_sql_must_fail fixed pf conf names rows). Qed.
+Print Assumptions C19_read_must_fail.
+
+Example C19_read_must_fail_example :
+  (* "abc" in the StringToFloat column f *)
+  spec_read_must_fail toy_fixed toy_pf example_conf [str "i"; str "b"; str "f"]
+    [[DInt 4; DInt 1; DStr (str "1.5")]; [DInt 5; DInt 0; DStr (str "abc")]] = true
+  (* a NULL after the first value of the Int64ToBool column b (a bool column after coercion) *)
+  /\ spec_read_must_fail toy_fixed toy_pf example_conf [str "i"; str "b"; str "f"]
+       [[DInt 4; DInt 1; DNull]; [DInt 5; DNull; DStr (str "1.5")]] = true
+  (* a NULL after the first value of the int column i *)
+  /\ spec_read_must_fail toy_fixed toy_pf example_conf [str "i"; str "b"; str "f"]
+       [[DInt 4; DInt 1; DNull]; [DNull; DInt 0; DStr (str "1.5")]] = true
+  (* not: NULLs in the float column only; NULLs BEFORE the first int (the code drops them: outside the property) *)
+  /\ spec_read_must_fail toy_fixed toy_pf example_conf [str "i"; str "b"; str "f"]
+       [[DInt 4; DInt 1; DNull]; [DInt 5; DInt 0; DStr (str "1.5")]] = false
+  /\ spec_read_must_fail toy_fixed toy_pf example_conf [str "i"] [[DNull]; [DInt 5]] = false.
+Proof. vm_compute. repeat split; reflexivity. Qed.
+
+(* the two halves of the oracle never contradict each other *)
+Theorem C19_spec_read_consistent fixed pf (conf : sql_config) (names : list bytes) (rows : list (list dval)) cols :
+  spec_read_gen fixed pf conf names rows = Some cols ->
+  spec_read_must_fail fixed pf conf names rows = false.
+Proof. exact (spec_read_gen_not_must_fail fixed pf conf names rows cols). Qed.
+Print Assumptions C19_spec_read_consistent.
+
 (* ReadSQL (model) never panics, whatever the configuration, the result set and the driver faults *)
 Theorem C19_read_never_panics fixed pf (conf : sql_config) (rs : result_set) (flt : sql_faults) :
   read_sql fixed pf conf rs flt <> Panic.
@@ -446,5 +481,6 @@ Qed.
      produces such stores; C19_read_coerced covers the reading side for any result set.
    * Result sets outside spec_read_gen (mixed types after coercion, NULL in an int / bool column, no
      non-NULL value, duplicate or inadmissible names, no rows) are outside the quantifier; for them only
+     C19_read_must_fail (coercion error, NULL after the first value of an int / bool column),
      C19_coercion_error, C19_null_in_int_or_bool_rejected and C19_read_never_panics apply.
    * database/sql (argument conversion, Rows.Scan dispatch) is trusted, as before. *)
